@@ -25,9 +25,10 @@ Descendants(par, c) == DescOf(par, {c})
 Heads(par, S) == {c \in S : ~\E d \in S : d # c /\ IsAncestor(par, c, d)}
 Roots(par, S) == {c \in S : ~\E a \in S : a # c /\ IsAncestor(par, a, c)}
 
-(* greatest common ancestors, as the index returns them *)
-CommonAncestors(par, A, B) ==
-  Heads(par, {c \in Nodes(par) : (\A a \in A : IsAncestor(par, c, a)) /\ (\A b \in B : IsAncestor(par, c, b))})
+(* greatest common ancestors, as Index::common_ancestors(set1, set2) returns *)
+(* them: heads of (ancestors of SOME a in A) intersected with (ancestors of  *)
+(* SOME b in B).  For singleton sets this is the usual GCA set.              *)
+CommonAncestors(par, A, B) == Heads(par, AncOf(par, A) \cap AncOf(par, B))
 (* x::y *)
 DagRange(par, X, Y) == DescOf(par, X) \cap AncOf(par, Y)
 (* x..y *)
